@@ -153,6 +153,8 @@ class PathEnum:
                     p = self.resolve_place(node['rv']['p'])
                     adt = self.place_adt(p)
             vs = self.variants(adt) if adt else None
+            if vs:
+                UNIVERSE[pl_s] = frozenset(vs)
 
             def name(v):
                 try:
@@ -294,7 +296,21 @@ class PathEnum:
         return list(res or [])
 
 
-def simplify(dnf):
+UNIVERSE = {}  # rendered discriminated place -> all variant names of its enum (filled while atoms are built)
+
+
+def _variant_set(a):
+    """(place, set of variants the atom allows) for discriminant atoms with a known universe"""
+    if a[0] == 'is' and a[1] in UNIVERSE:
+        return a[1], frozenset([a[2]])
+    if a[0] == 'isin' and a[1] in UNIVERSE:
+        return a[1], frozenset(a[2])
+    if a[0] == 'isnot' and a[1] in UNIVERSE:
+        return a[1], UNIVERSE[a[1]] - frozenset(a[2])
+    return None, None
+
+
+def simplify(dnf, merge_enums=False):
     """drop clauses subsumed by weaker clauses; merge clause pairs that differ in one complementary atom"""
     cl = set(dnf)
     changed = True
@@ -312,6 +328,20 @@ def simplify(dnf):
                 da, db = a - b, b - a
                 if len(da) == 1 and len(db) == 1:
                     x, y = next(iter(da)), next(iter(db))
+                    px, sx = _variant_set(x)
+                    py, sy = _variant_set(y)
+                    if merge_enums and px is not None and px == py:
+                        u = sx | sy
+                        cl.discard(a)
+                        cl.discard(b)
+                        if u == UNIVERSE[px]:
+                            cl.add(a & b)
+                        elif len(u) == 1:
+                            cl.add((a & b) | {('is', px, next(iter(u)))})
+                        else:
+                            cl.add((a & b) | {('isin', px, tuple(sorted(u)))})
+                        changed = True
+                        break
                     if complementary(x, y):
                         m = merge_atoms(x, y)
                         cl.discard(a)
